@@ -34,6 +34,27 @@ CHECKS = {
         note="Abstract machine = our reading of the IR's C semantics (validated three-way against both back ends in C06). Termination is a step budget. Near-2^31 sizes are out of reach.",
         design="3/C05",
     ),
+    "C04": dict(
+        level="exploration",
+        technique="runtime monitoring of kernel histories on the IR abstract machine: allocation events, every store of compute, pointer/cell diffs of the structure, values vs a fresh evaluate; sampled under ASan as emitted C",
+        text="~1.1k histories per quick run (assemble; compute; 3x re-valued compute) on both request styles: assemble's structure equals evaluate's, compute performs no allocation, stores only into the value array, leaves every pos/crd cell and pointer unchanged and reproduces evaluate's values for every re-valuation.",
+        note="Exact value comparison relies on dyadic inputs and identical operation order in compute and evaluate.",
+        design="3/C04",
+    ),
+    "C07": dict(
+        level="translation_validation",
+        technique="runtime differential monitoring: original vs peephole-optimised IR executed on the sanitizing interpreter (return value, array contents, access sets), kernels captured at the generator's peephole binding + random well-typed trees",
+        text="~24k rewritten random trees x 4 environments and ~1.7k rewritten kernels per quick run are executed before and after optimisation; every documented rewrite shape is generated (counted); any fault, differing return value/array or new access in the optimised program is a violation.",
+        note="Programs whose original is unsafe or exceeds the budget are discarded (counted). Equivalence is on sampled states, not all states.",
+        design="3/C07",
+    ),
+    "C16": dict(
+        level="exploration",
+        technique="runtime monitoring: loop-iteration counters of the abstract machine compared between runs with a qualifying dimension scaled x1..x10^4; negative control on non-qualifying indexes",
+        text="~1.8k (problem, formats, inputs, index) pairs per quick run meeting the syntactic precondition are executed at four scales; loop-iteration totals must be identical; ~1.4k non-qualifying pairs show growth (the counter measures).",
+        note="Precondition decided from request text; work measured as loop-body executions of the IR, not machine instructions.",
+        design="3/C16",
+    ),
 }
 
 PENDING = {
